@@ -251,7 +251,7 @@ def scenario(case, tag, with_fd=True):
         L.append("step")
         for i, (m, q, p) in enumerate(at):
             L.append("pos %d %s %s %s" % (i + 1, hx(p[0]), hx(p[1]), hx(p[2])))
-    L += ["show cv 1 bias 1 atomf 1", "step", "show cv 1 bias 0 atomf 0"]
+    L += ["show cv 1 bias 1 atomf 1 af 1", "step", "show cv 1 bias 0 atomf 0 af 0"]
     if with_fd:
         for (a, k) in fd_coords(case):
             p = list(at[a][2])
@@ -1051,6 +1051,11 @@ def parse_vsim(out, ncases):
                 cur["steps"][-1]["cv"][w[1]] = [float.fromhex(t) for t in w[2:]]
             except ValueError:
                 cur["steps"][-1]["cv"][w[1]] = None
+        elif w[0] == "AF" and cur["steps"]:
+            try:
+                cur["steps"][-1].setdefault("af", {})[w[1]] = [float.fromhex(t) for t in w[2:]]
+            except ValueError:
+                cur["steps"][-1].setdefault("af", {})[w[1]] = None
         elif w[0] == "BIAS" and cur["steps"]:
             cur["steps"][-1]["bias"][w[1]] = float.fromhex(w[2])
         elif w[0] == "ATOMF" and cur["steps"]:
@@ -1535,8 +1540,9 @@ def compare_case(run, case, res, mline, mout):
         run.mismatch(comp, {"line": mline}, base.get("energy"), mout)
         return False
     try:
-        iv = w.index("V"); jf = w.index("F")
-        me = float.fromhex(w[1]); msc = float.fromhex(w[3]); mv = [float.fromhex(t) for t in w[iv + 1:jf]]; mf = [float.fromhex(t) for t in w[jf + 1:]]
+        ia = w.index("A"); iv = w.index("V"); jf = w.index("F")
+        me = float.fromhex(w[1]); msc = float.fromhex(w[3]); ma = [float.fromhex(t) for t in w[ia + 1:iv]]
+        mv = [float.fromhex(t) for t in w[iv + 1:jf]]; mf = [float.fromhex(t) for t in w[jf + 1:]]
     except ValueError:
         run.mismatch(comp, {"line": mline}, base.get("energy"), mout)
         return False
@@ -1558,6 +1564,13 @@ def compare_case(run, case, res, mline, mout):
             x = [x[0] - round(d_) * per]
         if not x or len(x) != n or not all(close(a, b, TOL_TIE) for a, b in zip(x, mv[mi:mi + n])):
             bad.append("value v%d impl=%r model=%r" % (i, x, mv[mi:mi + n]))
+        # the force applied to the variable (colvar::applied_force(), what outputAppliedForce writes) = the model's sum of
+        # the biases' forces on it; sums of bias forces may cancel: tolerance relative to the largest element
+        af = (base.get("af") or {}).get("v%d" % i)
+        maf = ma[mi:mi + n]
+        asc = max([1.0] + [abs(t_) for t_ in maf])
+        if not af or len(af) != n or not all(close(a, b, TOL_TIE, asc) for a, b in zip(af, maf)):
+            bad.append("applied force on v%d impl=%r model=%r" % (i, af, maf))
         mi += n
     escale = max(1.0, abs(me))
     if not close(base["energy"], me, TOL_TIE):
